@@ -2536,6 +2536,11 @@ PPL::Polyhedron::simplify_using_context_assign(const Polyhedron& y) {
         = non_redundant_ineq_p.size();
       const dimension_type y_cs_num_ineq = y_cs_num_rows - y_cs_num_eq;
 
+      // If the equalities of `x' were not enough, then some inequalities
+      // of `x' hold as "masked" equalities in the context of `y'.
+      const bool looking_for_masked_eq
+        = (num_non_redundant_eq < needed_non_redundant_eq);
+
       // Compute saturation info.
       const dimension_type sat_num_rows = non_redundant_ineq_p_size;
       Bit_Matrix sat(sat_num_rows, z_gs_num_rows);
@@ -2547,24 +2552,19 @@ PPL::Polyhedron::simplify_using_context_assign(const Polyhedron& y) {
             sat_i.set(j);
           }
         }
-        if (sat_i.empty() && num_non_redundant_eq < needed_non_redundant_eq) {
-          // `non_redundant_ineq_i' is actually masking an equality
-          // and we are still looking for some masked inequalities.
-          // Iteration goes downwards, so the inequality comes from x_cs.
-          PPL_ASSERT(i >= y_cs_num_ineq);
-          // Check if the equality is independent in eqs.
-          Constraint masked_eq = non_redundant_ineq_i;
-          masked_eq.set_is_line_or_equality();
-          masked_eq.sign_normalize();
-          if (add_to_system_and_check_independence(eqs, masked_eq)) {
-            // It is independent: add the _inequality_ to non_redundant_eq.
-            non_redundant_eq.insert(non_redundant_ineq_i);
-            ++num_non_redundant_eq;
-          }
+        if (sat_i.empty() && looking_for_masked_eq && i >= y_cs_num_ineq) {
+          // `non_redundant_ineq_i' is an inequality of `x' that is
+          // saturated by all the generators of `z', i.e., it is masking
+          // an equality, and the equalities of `x' were not enough to
+          // obtain the affine hull of `z'.  Keep the _inequality_:
+          // linear dependence of the masked equalities does not imply
+          // redundancy of the masking inequalities (e.g., in context
+          // `A + B == 1', both `A >= 0' and `B >= 1' are needed in order
+          // to obtain `A == 0').  Inequalities of `y' are never added,
+          // since the result has to be an enlargement of `x'.
+          non_redundant_eq.insert(non_redundant_ineq_i);
         }
       }
-      // Here we have already found all the needed (masked) equalities.
-      PPL_ASSERT(num_non_redundant_eq == needed_non_redundant_eq);
 
       drop_redundant_inequalities(non_redundant_ineq_p, x.topology(),
                                   sat, z_cs_num_eq);
